@@ -39,6 +39,14 @@ def cases(tier, seed, shard, nshards):
     if tier == "thorough":
         for seq in tokens.sequences_stride(ALPHA, 7, shard, nshards, stride=61, offset=seed % 61):
             yield {"k": "tok", "text": "".join(seq)}
+    deep = []
+    for depth in (200, 1500, 5000) + ((20000,) if tier == "thorough" else ()):
+        o, c = "{" * depth, "}" * depth
+        deep += ["@comment{a " + o + "x" + c + " b}\n@a{k}", "@preamble{" + o + "x" + c + "}", "@string{s = {" + o + "x" + c + "}}\n@a{k, t = s}",
+                 "@a{k, t = {" + o + "x" + c + "}, u = 1}", '@a{k, t = "' + o + 'x"y' + c + '", u = 1}']
+    for i, t in enumerate(deep):
+        if i % nshards == shard:
+            yield {"k": "tok", "text": t}
     n = tier_pick(tier, 30000, 600000) // nshards
     r = rng_for(seed, shard, "c02")
     for i in range(n):
